@@ -351,6 +351,18 @@ func genC15(t *rapid.T) C15Case {
 		c.Data, c.Origin = valid, "valid+odd-listing"
 		return c
 	}
+	if c.Target == "file" && rapid.IntRange(0, 19).Draw(t, "methodField") == 0 && len(valid) >= 12 {
+		// a valid file whose aggregation-method or xFilesFactor FIELD holds a value no file can have: either Open
+		// refuses it, or every later operation on the handle (propagation reads both) copes with it
+		b := append([]byte(nil), valid...)
+		if rapid.Bool().Draw(t, "methodNotXff") {
+			binary.BigEndian.PutUint32(b[0:], rapid.SampledFrom([]uint32{0, 7, 8, 9, 10, 16, 255, 256, 1 << 16, 1 << 31, 1<<32 - 1}).Draw(t, "methodValue"))
+		} else {
+			binary.BigEndian.PutUint32(b[8:], rapid.SampledFrom([]uint32{0x7fc00000, 0xffc00000, 0x7f800000, 0xff800000, 0x40000000, 0xbf800000, 0x3f800001, 0x80000000, 0x00000001}).Draw(t, "xffBits"))
+		}
+		c.Data, c.Origin = b, "method-or-xff-field-damaged"
+		return c
+	}
 	if c.Target == "file" && rapid.IntRange(0, 11).Draw(t, "maxRetField") == 0 && len(valid) >= 8 {
 		// a valid file whose max-retention FIELD disagrees with its archive list
 		b := append([]byte(nil), valid...)
